@@ -709,6 +709,10 @@ pub struct Plan {
     pub hold: Duration,
 }
 
+/// Marker of the one panic that is raised on purpose: the application's handler panicking on a
+/// request that carries the header `x-panic` (see runner::install_panic_hook).
+pub const DELIBERATE_PANIC: &str = "deliberate-application-handler-panic";
+
 /// Model of "the current task occupies a worker thread of a multi-threaded runtime for `d`
 /// without yielding" (tokio::runtime::sim_sched::hold_task in the vendored tokio): everybody
 /// else keeps running, this task is not polled again and cannot be dropped before the time is up.
@@ -872,7 +876,11 @@ impl tower::Service<Request<Bytes>> for Svc {
             id,
             done: false,
         };
+        let poison = req.headers().contains_key("x-panic");
         Box::pin(async move {
+            if poison {
+                panic!("{DELIBERATE_PANIC}");
+            }
             hold_current_task(plan.hold);
             if !plan.delay.is_zero() {
                 tokio::time::sleep(plan.delay).await;
